@@ -433,6 +433,13 @@ partial def loop (h : IO.FS.Stream) (s : St) : IO Unit := do
         printVios (if s.diverged then s.sc ++ "~" else s.sc) s.line
           [⟨"C16", "cancelNotTerminating", [], s!"bus {b}: its run-loop task is still alive one second after it was cancelled"⟩]
       loop h s
+    | ["oAccessorRaise", e, bad, what] =>
+      -- C11: the original exception object of a failed handler is re-raised by the result accessors exactly when raise_if_any
+      if bad == "1" then
+        IO.println s!"OBS {s.sc} {s.line} event {e} results: error re-raising by the accessors deviates ({what})"
+        printVios (s.sc ++ "~") s.line
+          [⟨"C11", "accessorReraise", [], s!"event {e}: {what}"⟩]
+      loop h s
     | ["oAccessors", e, ch] =>
       -- C08: reading a completed event through the documented accessors changed one of its results (compared by value)
       if ch == "1" then
